@@ -18,7 +18,7 @@ def crop_effects(ctx, rule='C07-R2'):
     p = ctx.project
     f = p.func(Q, rule)
     ctx.saw(f)
-    s = fx.summ[Q]
+    s = fx.deep(Q)[1]
     ops = flatten(s.ret)
     base = [o for o in ops if o.kind == 'base']
     ok_base = base and all(tag(o.state) == 'call' and o.state[1] == ('g', SCREEN) for o in base)
